@@ -341,11 +341,17 @@ def run(ctx):
     ctx.assumptions += [
         "canonical equivalence is decided with CPython's unicodedata (Unicode 14): alphabets are restricted to characters assigned there",
         "the syllabic shapers (Indic, USE, Khmer, Myanmar) are not modelled in Lean: for them the property rests on this search only",
+        "C08_default_shaper_conserves is about RbModel/Pipeline.lean (default shaper, fonts without layout tables), tied to the crate by the pipeline-shape stream",
     ]
     ctx.regen()
     ctx.prove(MODULE)
     shim = vlib.build_harness()
     thai_stream(ctx, ctx.rng("thai"), ctx.budget(4000, 100000))
+    # C08_default_shaper_conserves is a statement about the Pipeline model: its tie to the crate (C16's stream, same generator)
+    import C16, _pipeline as P
+    chars = P.Chars(shim)
+    chars.load(C16.LETTERS + C16.MIRROR + C16.VERT + C16.SPACES + C16.CONT + C16.MARKS0 + C16.DI + C16.MAC + [0x25CC])
+    P.correspond(ctx, "pipeline-shape", C16.shape_lines(ctx.rng("shape"), chars, ctx.budget(300, 20000)), classify=C16.classify_shape)
     conservation_search(ctx, shim, ctx.rng("conservation"), ctx.budget(400, 12000))
 
 
